@@ -2,6 +2,7 @@ import TaskModel.Sched.MonC07
 import TaskModel.Sched.CallLemmas
 import TaskModel.Sched.ProgressLemmas
 import TaskModel.Sched.DeadlockLemmas
+import TaskModel.Sched.TermInv
 import TaskModel.Gen.Codes
 /-!
 # C07 — Bounded concurrency, no deadlock, guaranteed termination
@@ -167,15 +168,14 @@ theorem C07_cycle_error_wrapped (x : Act) (c : Cmd) :
 
 /-! ## deadlock freedom and termination
 
-The global statements are kept as `def … : Prop` — they are NOT proved here (they need the
-waits-for relation between activations to embed in the static call graph, and a
-well-founded measure on configurations).  Proved: no phase is a dead end, what each blocking
-phase waits for, and the machine-checked deadlock of a cycle through a `run: once` task. -/
+Proved: termination for acyclic programs (`C07_terminates`), no phase is a dead end, what
+each blocking phase waits for, and the machine-checked deadlock of a cycle through a
+`run: once` task.  Deadlock freedom for acyclic programs is stated in full as
+`C07_no_deadlock` (see the note there). -/
 
-/-- the static references (`deps:` and `task:` commands) are acyclic -/
-def Acyclic (P : Program) : Prop :=
-  ∃ rank : Nat → Nat, ∀ t d, P[t]? = some d →
-    (∀ u ∈ d.deps, rank u < rank t) ∧ (∀ u dfr, Cmd.call u dfr ∈ d.cmds → rank u < rank t)
+/-- the static references (`deps:` and `task:` commands) are acyclic: some rank decreases
+along every reference -/
+def Acyclic (P : Program) : Prop := ∃ rank : Nat → Nat, RankOk P rank
 
 /-- dedup keys identify the task (in the code: a hash of the task and its variables); the
 model accepts any key, so liveness needs this restriction on the trace -/
@@ -190,10 +190,19 @@ def C07_no_deadlock : Prop :=
     Acyclic P → F.cap ≠ some 0 → KeysByTask tr → replay P F (init n) tr = some c →
     (∃ a x, c.act? a = some x ∧ x.phase ≠ .done) → ∃ l, (step P F c l).isSome = true
 
-/-- FULL STATEMENT (not discharged): for acyclic programs every run is finite -/
-def C07_terminates : Prop :=
-  ∀ (P : Program) (F : Flags) (n : Nat), Acyclic P →
-    ∃ bound, ∀ (tr : List Label) (c : Config), replay P F (init n) tr = some c → tr.length ≤ bound
+/-- **C07 (termination).** For every acyclic program, all flags and every number of calls
+given to `Run` there is a bound on the length of ALL accepted traces: no interleaving runs
+forever.  (The bound is `n * topCost`: each call costs at most the sum over its activation
+tree of the local steps of each activation; the potential `pot` decreases with every label.) -/
+theorem C07_terminates (P : Program) (F : Flags) (n : Nat) (hac : Acyclic P) :
+    ∃ bound, ∀ (tr : List Label) (c : Config), replay P F (init n) tr = some c → tr.length ≤ bound := by
+  obtain ⟨rank, hr⟩ := hac
+  exact ⟨n * topCost P rank, fun tr c h => trace_bounded P F rank hr n tr c h⟩
+
+/-- every activation takes boundedly many steps, in any program (cyclic or not): each local
+step decreases `rem` -/
+theorem C07_local_steps_bounded (F : Flags) (o : Obs) (x : Act) (ev : Ev) (y : Act) (eff : Eff)
+    (h : stepLocal F o x ev = some (y, eff)) : rem y < rem x := stepLocal_rem F o x ev y eff h
 
 /-- **C07 (no phase is a dead end).** Every activation of every reachable configuration is
 well-formed and, unless it has returned, has an event (`someEv`) that is accepted as soon as
@@ -320,6 +329,15 @@ private def fanRun : List Label :=
    ⟨2, .enter (.dep 1 0) 1⟩, ⟨3, .enter (.dep 1 1) 2⟩,          -- both dependencies start at once
    ⟨2, .acquire⟩, ⟨2, .depsRelease⟩, ⟨2, .depsReacq⟩, ⟨2, .depsDone .ok⟩, ⟨2, .guardsPassed⟩,
    ⟨2, .cmdStart 0 none false⟩]
+
+theorem fan_acyclic : Acyclic fan := by
+  refine ⟨fun t => if t = 0 then 1 else 0, ?_⟩
+  intro t d h
+  match t with
+  | 0 => simp [fan] at h; subst h; simp
+  | 1 => simp [fan] at h; subst h; simp
+  | 2 => simp [fan] at h; subst h; simp
+  | t + 3 => simp [fan] at h
 
 -- the run is accepted; one slot in use, held by the activation inside its shell command
 example : ((replay fan one (init 1) fanRun).map (fun c => (c.tokens, holders c (actIds fanRun), shells c (actIds fanRun))))
